@@ -11,62 +11,62 @@ PY = "/venv/bin/python"
 CLAIMS = {
     "C02": dict(
         technique="sibling agreement of call-site bindings by def-use origin; step-offset forms of propagator indices; role-typed argument binding",
-        text="Decides that TEMPO and PT-TEMPO are wired to the same inputs at the same step indices (S1 influence arguments by origin, S2 propagator/step alignment, S3 role-typed plumbing, S4 dkmax/unique provenance). Numerical agreement of the two contractions is not decided.",
+        text="Decides that TEMPO and PT-TEMPO are wired to the same inputs at the same step indices (S1 influence arguments by origin, S2 propagator/step alignment, S3 role-typed plumbing, S4 dkmax/unique provenance, S5 both back ends fill every basis element of the dk=0 tensors from the reduced influence; S1 also: dk reaches influence_matrix unchanged). Numerical agreement of the two contractions is not decided.",
         note="Trusted: Python ast; def-use engine; role vocabulary (oqv/roles.py). Partial claim: wiring only.",
         ref="2/C02"),
     "C01": dict(
         technique="path-conditioned reaching definitions (sign of dk, None-ness of dkmax / add_correlation_time, order of step and dkmax decided per case) with Laurent-polynomial forms of the cell bounds, influence indices and split indices; keyword binding of every truncating call",
-        text="Claims C01 in part: the clause 'the memory settings have exactly their documented meaning' and the tolerance clause, as far as they are visible in the shape of the code - which grid cell of the autocorrelation function is integrated per separation and memory setting (N1), which separation enters the TEMPO / PT-TEMPO network at which step (N2), the tcut <-> dkmax conversion (N3), every truncation uses the requested relative tolerance only (N4). Each is a necessary condition. Equality of the states with the analytic independent-boson solution or the explicit finite-mode evolution is not decided.",
+        text="Claims C01 in part: the clause 'the memory settings have exactly their documented meaning' and the tolerance clause, as far as they are visible in the shape of the code - which grid cell of the autocorrelation function is integrated per separation and memory setting (N1), which separation enters the TEMPO / PT-TEMPO network at which step (N2), the tcut <-> dkmax conversion incl. nearest-integer rounding of tcut/dt (N3), every truncation uses the requested relative tolerance only (N4). Each is a necessary condition. Equality of the states with the analytic independent-boson solution or the explicit finite-mode evolution is not decided.",
         note="Trusted: Python ast; CFG/def-use engine; NodeArray.split/join argument order (index, far side first). Partial claim: structural necessary conditions only.",
         ref="7.2 (C01)"),
     "C03": dict(
-        technique="sibling cross-check of the leg-role table of all PT-MPO consumers (edge-connection sites classified by role), convention check of superoperator/cap application, guard presence, index-position discipline of the environment list",
-        text="Claims C03 in part: structural necessary conditions - all five consumers of a PT-MPO tensor agree on (past bond, future bond, system in, system out) and on the rank-3 delta expansion (M1), one convention for applying system superoperators and caps (M2), input guards (M3), list position of a process tensor only selects its own bond leg / cap / MPO (M4). Exactness against an independent joint evolution is not decided; an error shared by producer and all consumers is invisible to this cross-check.",
-        note="Trusted: tensornetwork edge-connection semantics; local-name role vocabulary (exit 2 if it no longer matches). Partial claim.",
+        technique="sibling cross-check of the leg-role table of all PT-MPO consumers (edge-connection sites classified by the slots an edge is connected to / stored in); memo key / invalidation analysis; copy-vs-alias classification of setter stores, convention check of superoperator/cap application, guard presence, index-position discipline of the environment list",
+        text="Claims C03 in part: structural necessary conditions - all five consumers of a PT-MPO tensor agree on (past bond, future bond, system in, system out) and on the rank-3 delta expansion (M1), one convention for applying system superoperators and caps (M2), input guards (M3), list position of a process tensor only selects its own bond leg / cap / MPO (M4), no getter serves a memoised tensor outdated by a setter (M5), setters store independent copies (M6), caps close rank-3 / rank-4 tensors with trace_square / (trace_in, trace_out) in both compute_caps (M7). Exactness against an independent joint evolution is not decided; an error shared by producer and all consumers is invisible to this cross-check.",
+        note="Trusted: tensornetwork edge-connection semantics; numpy copy/alias table (np.array copies, np.asarray may not). Partial claim.",
         ref="7.2 (C03)"),
     "C04": dict(
         technique="algebraic shape checks: coefficient/operand form of every Lindblad dissipator, Kronecker-factor convention table of the superoperator builders, factor structure of the influence exponent, return-expression form of normalised read-outs",
-        text="Claims C04 in part: the clauses that hold by construction - trace-annihilating form of every dissipator construction site (D1), one (A (x) B^T) superoperator convention so that commutators annihilate the trace (D2), normalised read-outs (D3), and the factor structure of the influence exponent that gives trace preservation of the last-leg sum and I(s+,s-)* = I(s-,s+) (D4). Each is a necessary condition of unit trace / Hermiticity. Positivity and the numerical size of deviations after SVD truncation are not decided.",
+        text="Claims C04 in part: the clauses that hold by construction - trace-annihilating form of every dissipator construction site (D1), one (A (x) B^T) superoperator convention so that commutators annihilate the trace (D2), normalised read-outs (D3), and the factor structure of the influence exponent that gives trace preservation of the last-leg sum and I(s+,s-)* = I(s-,s+) (D4), one transposition parity of the Hermitian half-step propagator along the Gibbs path (D5), caps closed with the right trace vectors per tensor rank (D6). Each is a necessary condition of unit trace / Hermiticity. Positivity and the numerical size of deviations after SVD truncation are not decided.",
         note="Trusted: Kronecker/vec convention stated in operators.py; eta.real/eta.imag real. Partial claim: structural necessary conditions only.",
         ref="2/C04 and 7.2"),
     "C05": dict(
-        technique="typestate on matrices (HERMITIAN established -> decomposition must be of the Hermitian family); adjoint-pair operand check",
-        text="Decides that the diagonalising transform comes from a solver whose contract gives a unitary transform and real eigenvalues for every Hermitian input (E1), and that forward/backward basis changes are mutual adjoints at every consumer (E2). Numerical covariance of dynamics is not decided.",
+        technique="typestate on matrices (HERMITIAN established -> decomposition must be of the Hermitian family); adjoint-pair operand check by flow into keyword / attribute; index calculus (dot, @, tensordot, einsum, moveaxis, .T) of the transformed MPO tensor",
+        text="Decides that the diagonalising transform comes from a solver whose contract gives a unitary transform and real eigenvalues for every Hermitian input (E1), and that forward/backward basis changes are mutual adjoints at every consumer (E2), Bath stores the solver's outputs unchanged (E3), and both get_mpo_tensor return M_in[k,i] T[a,b,i,j] M_out[j,l] (E4). Numerical covariance of dynamics is not decided.",
         note="Trusted: frozen numpy/scipy table (eigh family vs general eig). Partial claim.",
         ref="2/C05"),
     "C06": dict(
         technique="provenance (role) tags NORTH/WEST flowed from producer to every consumer by def-use",
-        text="Decides role consistency of the two degeneracy maps from Bath to every consumer (R1) and that classes are equality classes of the full key tuple (R2). Numerical equality of reduced and full runs is not decided.",
+        text="Decides role consistency of the two degeneracy maps from Bath to every consumer (R1) and that classes are equality classes of the full key tuple with an absolute tolerance (R2). Numerical equality of reduced and full runs is not decided.",
         note="Trusted: def-use engine; numpy indexing semantics for a[idx] / outer. Partial claim.",
         ref="2/C06"),
     "C07": dict(
-        technique="interprocedural def-use (argument reachability), co-selection by same mask, interval analysis of slice bounds, predicate pairing",
-        text="Decides the alignment bookkeeping of multi-time correlations: one time step for axes and dynamics (V1), values and write-back indices selected together (V2), no wrap-around in interval parsing (V3), anti-ordering swap-in/swap-out under one predicate (V4), NaN-initialised result written only at scheduled indices (V5). Exactness of the values is not decided.",
+        technique="interprocedural def-use (argument reachability), co-selection by same mask, interval analysis of slice bounds, predicate pairing, loop-carried dependence on the CFG",
+        text="Decides the alignment bookkeeping of multi-time correlations: one time step for axes and dynamics (V1), values and write-back indices selected together (V2), no wrap-around in interval parsing (V3), anti-ordering swap-in/swap-out under one predicate (V4), NaN-initialised result written only at scheduled indices (V5), complementary ordering predicates (V6), operator-side table (V7), no working value carried between schedule entries (V8). Exactness of the values is not decided.",
         note="Trusted: Python slice semantics table; def-use engine. Partial claim.",
         ref="2/C07"),
     "C08": dict(
         technique="polynomial forms of half-step indices; event-sequence extraction and mirror (reversal) check of the backward pass",
-        text="Decides the index maps of the half-step parameters/derivatives (H1), that the backward pass is the reversed, transposed mirror of the forward step incl. environment order (H2) and forward-loop sibling agreement (H3). Equality with finite differences is not decided.",
+        text="Decides the index maps of the half-step parameters/derivatives (H1), that the backward pass is the reversed, transposed mirror of the forward step incl. environment order (H2) forward-loop sibling agreement (H3), derivative provenance: a differentiation operator applied to the forward half-step propagator (H4), memo-key completeness in ParameterizedSystem (H5). Equality with finite differences is not decided.",
         note="Trusted: forms engine; loop-direction idiom table. Partial claim.",
         ref="2/C08"),
     "C09": dict(
-        technique="step-offset tags of times and state lists at every field_eom call; linear-form comparison of the Heun update; call-graph reachability of the shared network step",
-        text="Decides time/state alignment of both Runge-Kutta stages (F1), the Heun form in both implementations (F2) and that both back ends share one network-stepping routine (F3). Numerical agreement is not decided.",
+        technique="step-offset tags of times and state lists at every field_eom call; linear-form comparison of the Heun update; call-graph reachability of the shared network step; must-redefine on every loop path (sign analysis of the loop variable)",
+        text="Decides time/state alignment of both Runge-Kutta stages (F1), the Heun form in both implementations (F2) that both back ends share one network-stepping routine (F3), and that the values carried between steps are renewed on every path of every later iteration (F4). Numerical agreement is not decided.",
         note="Trusted: forms engine; step-tag facts listed in evidence. Partial claim.",
         ref="2/C09"),
     "C10": dict(
         technique="import resolvability by locating and parsing the imported package; effect/ordering rule on the parallel layer; dispatch sibling agreement",
-        text="Decides that every execution mode resolves its names (I1), that a parallel layer's result is independent of completion order (I2: snapshot before submit, pure worker, ordered consumption, write-back in caller after join) and that all modes reach the same worker and write-back (I3). Exactness against dense propagation is not decided.",
+        text="Decides that every execution mode resolves its names (I1), that a parallel layer's result is independent of completion order (I2: snapshot before submit, pure worker, ordered consumption, write-back in caller after join) that all modes reach the same worker and write-back (I3), site weights (I5), Trotter layer coverage (I6), and the count of bond matrices / traced site tensors between two recorded sites as polynomials in the site indices (I7). Exactness against dense propagation is not decided.",
         note="Trusted: concurrent.futures semantics table (Executor.map preserves submission order; `with` joins). Partial claim.",
         ref="2/C10"),
     "C11": dict(
         technique="guarded-stepping rule (control dependence of stepping on step/target); return-expression form; polynomial form of the imaginary-time label",
-        text="Decides that repeating GibbsTempo.compute is idempotent (K1), that the returned state is X/X.trace() on every path (K2) and the imaginary-time slice/label forms (K3). Equality with the reduced thermal state is not decided.",
+        text="Decides that repeating GibbsTempo.compute is idempotent (K1), that the returned state is X/X.trace() on every path (K2) the imaginary-time slice/label forms (K3), Matsubara coefficients on the imaginary-time grid (K4), even transposition parity of every propagator factor of the path (K5: orientation of the thermal state), Matsubara flag in every memo key (K6). Equality with the reduced thermal state is not decided.",
         note="Trusted: def-use/CFG engine. Partial claim.",
         ref="2/C11"),
     "C12": dict(
         technique="sibling cross-check: linear forms over the uninterpreted eta() against the dblquad regions; shape-name table; .real on Matsubara paths; registry agreement",
-        text="Decides that the closed-form cell integrals are the inclusion-exclusion of the double antiderivative over exactly the regions the quadrature sibling integrates (L1), shape-name agreement (L2), Matsubara realness by construction (L3) and cutoff-registry / integrand-builder agreement (L4). The kernel eta itself is not decided.",
+        text="Decides that the closed-form cell integrals are the inclusion-exclusion of the double antiderivative over exactly the regions the quadrature sibling integrates (L1), shape-name agreement (L2), Matsubara realness by construction (L3) cutoff-registry / integrand-builder agreement (L4), eta'' = C between the two integrand builders (L5), memo-key completeness in bath_correlations (L6). The kernel eta itself is not decided.",
         note="Trusted: forms engine over an uninterpreted function; scipy.dblquad argument convention table. Partial claim.",
         ref="2/C12"),
     "C13": dict(
@@ -86,7 +86,7 @@ CLAIMS = {
         ref="2/C15"),
     "C16": dict(
         technique="writer/reader key-table agreement; field coverage of export/import; nullness round-trip of setter/getter pairs; sibling agreement of the two get_mpo_tensor / PtTempo constructions",
-        text="Decides table agreement of HDF5 keys (X1), field coverage of export and import (X2), None round-trip (X3), shape/data index pairing (X4), raw-vs-transformed discipline and sibling agreement (X5, X6). Bitwise equality through HDF5 is not decided.",
+        text="Decides table agreement of HDF5 keys (X1), field coverage of export and import (X2), None round-trip (X3), shape/data index pairing (X4), raw-vs-transformed discipline as an index-contraction signature of both get_mpo_tensor (X5), agreement of the two PtTempo constructions (X6), dtype table (X7). Bitwise equality through HDF5 is not decided.",
         note="Trusted: h5py dataset API table. Partial claim.",
         ref="2/C16"),
     "C17": dict(
@@ -106,7 +106,7 @@ CLAIMS = {
         ref="2/C19"),
     "C20": dict(
         technique="effect analysis: transitive self-attribute reads of memoised methods; closure-capture analysis vs shallow copy; array provenance for .shape stores; mutated-parameter summaries",
-        text="Decides the structural ways state leaks here: stale memoisation (A1), closures outliving a copy (A2/A3), layout-dependent in-place reshape (A4), writes to caller data (A5), shared mutable defaults (A6).",
+        text="Decides the structural ways state leaks here: stale memoisation (A1), closures outliving a copy (A2/A3), layout-dependent in-place reshape (A4), writes to caller data (A5), shared mutable defaults (A6), process-global state (A6b), memo keys and memo invalidation (A7, A7b), copies kept and handed out (A8).",
         note="Trusted: numpy copy/view/layout table; functools.lru_cache key semantics. Partial claim.",
         ref="2/C20"),
 }
